@@ -66,3 +66,26 @@ fn c18_exceptions_remove_exactly_the_identical_injection() {
     assert_eq!(injected_at(&[inj, "example.com##+js(set, a, 1)", "example.com#@#+js()"], "https://example.com"), "");
     assert_ne!(injected_at(&[inj, "example.com#@#+js())"], "https://example.com"), "");
 }
+
+/// OBL C18.witness.permission_per_list
+#[test]
+fn c18_each_list_injects_with_its_own_permission() {
+    use adblock::resources::PermissionMask;
+    // "appears in a page's injected script only if the rule list that requested it was granted all of those bits" - and it does
+    // appear when SOME list that requested it was granted them, whatever other lists said about the same host before or after
+    let trusted = PermissionMask::from_bits(1);
+    let build = |lists: &[(&[&str], PermissionMask)]| {
+        let mut fs = FilterSet::new(false);
+        for (rules, permissions) in lists { fs.add_filters(rules.iter(), ParseOptions { permissions: *permissions, ..Default::default() }); }
+        let mut e = Engine::from_filter_set(fs, true);
+        e.use_resources([Resource { name: "trusted.js".into(), aliases: vec![], kind: ResourceType::Mime(MimeType::ApplicationJavascript),
+            content: BASE64_STANDARD.encode("function trusted(a = '') { }"), dependencies: vec![], permission: trusted }]);
+        e.url_cosmetic_resources("https://example.com").injected_script
+    };
+    let rule: &[&str] = &["example.com##+js(trusted, x)"];
+    assert_eq!(build(&[(rule, PermissionMask::default())]), "", "a list without the permission must not inject");
+    assert!(build(&[(rule, trusted)]).contains("trusted(\"x\")"));
+    assert!(build(&[(rule, PermissionMask::default()), (rule, trusted)]).contains("trusted(\"x\")"), "untrusted list first, trusted list second");
+    assert!(build(&[(rule, trusted), (rule, PermissionMask::default())]).contains("trusted(\"x\")"), "trusted list first, untrusted list second");
+    assert_eq!(build(&[(rule, PermissionMask::from_bits(2)), (rule, PermissionMask::from_bits(4))]), "", "two lists that each lack the bit");
+}
